@@ -77,6 +77,14 @@ class FiniteAtmosphericLayer(AtmosphericLayer):
             # used as the source for all randomness.
             self.rng = copy.deepcopy(self._original_rng)
 
+        self._make_noise()
+
+        self.center = np.zeros(2)
+        self._t = 0
+
+    def _make_noise(self):
+        '''Draw the spectral noise from the current random generator.
+        '''
         self.psd = power_spectral_density_von_karman(fried_parameter_from_Cn_squared(self.Cn_squared, 1), self.L0)
 
         self.noise_factory = SpectralNoiseFactoryMultiscale(self.psd, self.input_grid, self.oversampling)
@@ -91,7 +99,10 @@ class FiniteAtmosphericLayer(AtmosphericLayer):
         This property is not intended to be used by the user.
         '''
         if self._noise is None:
-            self.reset()
+            # The Cn^2 or outer scale changed. Redraw the same realization
+            # without rewinding the layer to t=0.
+            self.rng = copy.deepcopy(self._original_rng)
+            self._make_noise()
 
         return self._noise
 
@@ -130,6 +141,7 @@ class FiniteAtmosphericLayer(AtmosphericLayer):
             The new time to evolve the phase screen to.
         '''
         self.center = self.velocity * t
+        self._t = t
         self._achromatic_screen = None
 
     @property
